@@ -90,6 +90,10 @@ def main():
         for man in ("sphere", "torus", "plane", "circle", "smallsphere"):
             for (delta, lam, tol) in ([(0.05, 2.0, 1e-4)] if quick else [(0.05, 2.0, 1e-4), (0.2, 1.5, 1e-3), (0.02, 3.0, 1e-6)]):
                 laws.append("LAWS %s %s %d %d %g %g %g" % (kind, man, n, rng.randint(1, 10 ** 6), delta, lam, tol))
+    # arcs of every length with step budgets lambda close to 1 (the budget runs out near the end of the traversal)
+    for kind in ("PJ", "AT"):
+        for lam in ([1.05, 1.2, 1.5] if quick else [1.02, 1.05, 1.1, 1.2, 1.35, 1.5]):
+            for delta in (0.02, 0.05): laws.append("LAWS %s sphere 0 %d %g %g %g" % (kind, rng.randint(1, 10 ** 6), delta, lam, 1e-4))
     for kind in ("PJ", "AT", "TB"):
         for man in ("sphere", "torus"):
             for r in range(3 if quick else 12): laws.append("PLAN %s %s %d %g" % (kind, man, rng.randint(1, 10 ** 6), 1.0))
